@@ -96,7 +96,7 @@ Print Assumptions C15_reachable_models_wf.
    is the stored one after every step, a refused step leaves the store (hence the running
    instance) as it was, an accepted one keeps the identifiers *)
 Theorem C15_instance_memory_is_store : forall steps os,
-  inst_chain empty_model (run_inst_obs empty_model empty_model false steps os).
+  inst_chain empty_model (run_inst_obs empty_model empty_model false None steps os).
 Proof. intros. apply run_inst_chain; [exact wf_model_nil | discriminate]. Qed.
 Print Assumptions C15_instance_memory_is_store.
 
@@ -131,7 +131,7 @@ Print Assumptions C15_k2_regression.
 Example C15_spec_accepts_witnesses :
   spec_C15 w_case_k1 (run_C15 w_case_k1) = true /\ spec_C15 w_case_k2 (run_C15 w_case_k2) = true /\
   spec_C15 w_case_k3 (run_C15 w_case_k3) = true /\
-  map fst (run_inst_obs empty_model empty_model false [(true, mkS false w_w1); (false, mkS false (mkV 2 [(2, [mkED 1 false true [fS 1] []])])); (true, mkS false w_w1)] []) = [true; false; true].
+  map fst (run_inst_obs empty_model empty_model false None [(true, mkS false w_w1); (false, mkS false (mkV 2 [(2, [mkED 1 false true [fS 1] []])])); (true, mkS false w_w1)] []) = [true; false; true].
 Proof. exact spec_witnesses. Qed.
 Print Assumptions C15_spec_accepts_witnesses.
 
@@ -140,9 +140,18 @@ Print Assumptions C15_spec_accepts_witnesses.
 Example C15_storage_refusal_regression :
   snd (upd zero_oracle false (fst (upd zero_oracle false empty_model w_ix1)) w_ix_clash) = None /\
   storage_refuses w_ix_clash = true /\ storage_refuses w_ix3 = false /\
-  map fst (run_inst_obs empty_model empty_model false
+  map fst (run_inst_obs empty_model empty_model false None
              [(true, mkS false w_ix1); (false, mkS false w_ix_clash); (false, mkS false w_ix3); (true, mkS false w_ix_clash); (true, mkS false w_ix3)] [])
     = [true; false; true; false; true] /\
-  spec_C15 w_case_storage (run_C15 w_case_storage) = true.
+  spec_C15 w_case_storage (run_C15 w_case_storage) = true /\ known_C15 w_case_storage = [].
 Proof. exact storage_witness. Qed.
 Print Assumptions C15_storage_refusal_regression.
+
+(* open finding, class 4 (outside the data model code: query.rs builds `Ifnull(<json value>, true)`):
+   an entity that has rows is given `f2: Boolean default true`; the old rows read 1 for f2, not true.
+   The evaluator is not modelled: run_C15 reproduces the harness' row flag for exactly this class,
+   the oracle rejects it, known_C15 names the class *)
+Example C15_bool_default_reads_int_refuted :
+  spec_C15 w_case_bool (run_C15 w_case_bool) = false /\ known_C15 w_case_bool = [4%Z].
+Proof. exact bool_default_witness. Qed.
+Print Assumptions C15_bool_default_reads_int_refuted.
